@@ -104,15 +104,20 @@ def reference_row(row, d, optional=True):
     return _ref_cache[key]
 
 
+INT_SAM = {1: "2", 2: "10", 3: "1"}      # purely numeric sample ids (read back as text: sorted "1", "10", "2")
+
+
 def check_table(rec, idx, workdir, seed, corrupt=None, names=None):
-    global MUT
-    saved_mut = MUT
+    global MUT, SAM
+    saved_mut, saved_sam = MUT, SAM
     if names is not None:
         MUT = names
+    if idx % 5 == 3 or idx % 10 == 0:       # tab- and comma-separated tables (every 5th table is written as CSV)
+        SAM = INT_SAM
     try:
         return _check_table(rec, idx, workdir, seed, corrupt)
     finally:
-        MUT = saved_mut
+        MUT, SAM = saved_mut, saved_sam
 
 
 def _check_table(rec, idx, workdir, seed, corrupt=None):
